@@ -3,7 +3,7 @@
 (M) TLC exhausts specs/replication/Replication.tla: producers (WAL sequence under w.mu, hook
     outside it, Sender.Replicate assigning its own sequence and enqueueing in two steps), bounded
     queue, distributor, per-entry tags + cumulative hash + checkpoints, a wire adversary
-    (Flip/Dup/Drop/Swap/Splice/ReplayCp + the composite DelayCps) and the receiver's checks as
+    (Flip/Dup/Drop/Swap/Splice/ReplayCp + the composites DelayCps and DropWindow) and the receiver's checks as
     written.  The spec models the code as it is since fix d5f2c74 (Atomic: sequence.Add and the
     enqueue are one critical section) and all invariants are checked, with one adversary step on
     2 producers x 2 entries and TWO adversary steps on a single producer.  The pre-fix shape is a
@@ -31,7 +31,7 @@ GATES = [
     "internal/wal/wal.go|AppendRawWithMeta|before-call:hook|wal.beforeHook",
 ]
 IMPL_ACTIONS = ("WalAssign", "SndAssign", "Dequeue", "Broadcast", "Flip", "Dup", "DropF", "Swap",
-                "Splice", "ReplayCp", "DelayCps", "StartRecv", "Recv")
+                "Splice", "ReplayCp", "DelayCps", "DropWindow", "StartRecv", "Recv")
 # monitor codes that say the recording is inconsistent with itself, not that the property is broken
 HARNESS_CODES = ("trace-duplicate-append", "trace-inconsistent-end", "applied-after-drop")
 
@@ -142,6 +142,10 @@ def run(ctx):
     for a in ("DropF", "DelayCps", "Swap", "ReplayCp", "Recv"):
         if fired2.get(a, 0) == 0:
             raise InfraError("vacuous model: action %s never fired in MC_adv2.cfg (%s)" % (a, fired2))
+    # one adversary step on a stream of three checkpoint windows (DropWindow with windows following it)
+    win = ctx.tlc("replication", "Replication", "MC_win.cfg", coverage=True, timeout=1200, workers=4)
+    if win.coverage.get("DropWindow", (0, 0))[1] == 0:
+        raise InfraError("vacuous model: DropWindow never fired in MC_win.cfg")
     ctl = ctx.tlc("replication", "Replication", "MC_ctl_aswritten.cfg", allow_violation=True, timeout=600, workers=2)
     if ctl.violated != "HealthyNeverDropped":
         # negative control: the pre-fix shape (two-step assign/enqueue) must still be rejected by the model
@@ -151,6 +155,7 @@ def run(ctx):
                          "invariants": all_inv, "actions_fired": fired},
         "two_step_adversary": {"cfg": "MC_adv2.cfg", "distinct": adv2.distinct, "generated": adv2.generated,
                                "depth": adv2.depth, "invariants": all_inv, "actions_fired": fired2},
+        "three_windows": {"cfg": "MC_win.cfg", "distinct": win.distinct, "generated": win.generated, "depth": win.depth},
         "negative_control_pre_fix_shape": {"cfg": "MC_ctl_aswritten.cfg", "violated": ctl.violated,
                                            "distinct": ctl.distinct,
                                            "counterexample_len": sum(1 for l in ctl.counterexample if l.startswith("State "))},
@@ -176,6 +181,7 @@ def run(ctx):
     gen("Gen_ctl_aswritten.cfg", None, False)                     # pre-fix schedules (regression guard)
     gen("Gen_adv1.cfg", None, True)                               # every single adversary step
     gen("Gen_adv2q.cfg", 500 if quick else None, True, has_delay)  # two steps: drop/dup/swap/replaycp/delaycps
+    gen("Gen_advw.cfg", None, True)                               # three windows: dropwindow alone and with drop/delaycps
     if not quick:
         gen("Gen_adv2.cfg", 1500, True, has_delay)                # two steps, all operations
     n_tlc = len(scs)
@@ -195,7 +201,7 @@ def run(ctx):
     # free-running stress: 1..16 goroutines, random payload sizes, random checkpoint intervals and
     # queue sizes (the quantifier of the property), with and without a random adversary step
     n_stress = 40 if quick else 100
-    ops = ["flip", "dup", "drop", "swap", "splice", "replaycp", "delaycps"]
+    ops = ["flip", "dup", "drop", "swap", "splice", "replaycp", "delaycps", "dropwindow"]
     for k in range(n_stress):
         g = rng.choice([1, 2, 3, 4, 8, 12, 16])
         per = rng.choice([3, 10, 25]) if quick else rng.choice([3, 10, 25, 40])
